@@ -681,7 +681,11 @@ def _build_nsample(inp):
     if not isinstance(s, Scores):
         pre.append(Issue("PROPFAIL", "sample-type", f"{ctx}: returned {type(s).__name__}", "nsample/type"))
         return _empty(inp, pre, tags)
-    pos, neg = np.asarray(s.pos, dtype=float), np.asarray(s.neg, dtype=float)
+    pos, neg = np.array(s.pos, dtype=float, copy=True), np.array(s.neg, dtype=float, copy=True)
+    common.call(d.sample, n, rng=np.random.default_rng(seed + 1), **kw)  # a later sample of the same size from the same model
+    if not (np.array_equal(np.asarray(s.pos, dtype=float), pos) and np.array_equal(np.asarray(s.neg, dtype=float), neg)):
+        pre.append(Issue("PROPFAIL", "sample-total", f"{ctx}: the returned Scores object changed when the model was sampled again",
+                         "nsample/retained"))
     if pos.ndim != 1 or neg.ndim != 1 or len(pos) + len(neg) != n_eff or not _finite(pos.tolist() + neg.tolist()):
         pre.append(Issue("PROPFAIL", "sample-total", f"{ctx}: {pos.shape} positive and {neg.shape} negative scores, n={n_eff}",
                          "nsample/total"))
@@ -752,7 +756,14 @@ def _build_bernoulli(inp):
             pre.append(Issue("PROPFAIL", "bernoulli-shape", f"{ctx}: returned array of shape {data.shape} dtype {data.dtype}",
                              "bernoulli/shape"))
             return _empty(inp, pre, tags)
-        data = data.astype(int).tolist()
+        kept = np.array(r[1], copy=True)
+        # the returned sample is the caller's: drawing again from the same object (same n, both modes) leaves it alone
+        for rnd_ in (True, False):
+            common.call(g.sample, n, random=rnd_, rng=np.random.default_rng(seed + 1))
+        if not np.array_equal(np.asarray(r[1]), kept):
+            pre.append(Issue("PROPFAIL", "bernoulli-count", f"{ctx}: the returned sample changed when the same object was sampled again "
+                             f"({int(kept.sum())} ones -> {int(np.asarray(r[1]).sum())})", "bernoulli/retained"))
+        data = kept.astype(int).tolist()
         if rec is not None:
             if random_:
                 c = rec.of("binomial")
@@ -833,7 +844,15 @@ def _build_corrbern(inp):
         if data.ndim != 2 or data.shape[0] != 2 or data.dtype.kind not in "iu" or np.any(data < 0):
             pre.append(Issue("PROPFAIL", "corr-shape", f"{ctx}: returned array of shape {data.shape} dtype {data.dtype}", "corrbern/shape"))
             return _empty(inp, pre, tags)
-        data = data.astype(int)
+        kept = np.array(r[1], copy=True)
+        # the returned sample is the caller's: drawing again from the same object (same n, both modes) leaves it alone
+        for rnd_ in (True, False):
+            common.call(g.sample, n, random=rnd_, rng=np.random.default_rng(seed + 1))
+        if not np.array_equal(np.asarray(r[1]), kept):
+            pre.append(Issue("PROPFAIL", "corr-marginals", f"{ctx}: the returned sample changed when the same object was sampled "
+                             f"again (row sums {kept.sum(axis=1).tolist()} -> {np.asarray(r[1]).sum(axis=1).tolist()})",
+                             "corrbern/retained"))
+        data = kept.astype(int)
         joint_obs = (data[0] + 2 * data[1]).tolist()
         if rec is not None:
             c = rec.of("choice" if random_ else "shuffle")
